@@ -29,8 +29,11 @@ fn main() {
             println!("{}", vx::atomic_diff::run_type(i, full));
         }
         Some("bench") => {
-            let _orig = vx::common::mute_stderr();
-            vx::common::silence_panics();
+            if std::env::var("VX_LOUD").is_err() {
+                let _orig = vx::common::mute_stderr();
+                std::mem::forget(_orig);
+                vx::common::silence_panics();
+            }
             let fam = checks::family(&args[2]);
             let i: usize = args[4].parse().unwrap();
             let t0 = std::time::Instant::now();
